@@ -99,7 +99,37 @@ def main(tier):
             cid = "mt%d%s" % (k, variant)
             cases.append(rel.case(cid, text))
             many[cid] = (text, list(lst))      # as written (a repeated name stays repeated: nothing says otherwise)
+    # a declared TAG whose name is what an untagged interaction gets from its path: one tag, the declared one
+    named = {}
+    for k, (decl_first, with_user) in enumerate([(True, True), (False, True), (True, False), (False, False)]):
+        tagdecl = "TAG @zp // Declared title\n  Description\n    declared text\n"
+        body = "GET /zp\n  200 any\n" + ("GET /zq\n  Tags @zp\n  200 any\n" if with_user else "") + "URL /zp/sub\n  POST\n    200 any\n"
+        text = "JSIGHT 0.3\n" + (tagdecl + body if decl_first else body + tagdecl)
+        cases.append(rel.case("nt%d" % k, text))
+        named["nt%d" % k] = (text, ["http GET /zp"] + (["http GET /zq"] if with_user else []) + ["http POST /zp/sub"])
     obs = harness("run", cases)
+    for cid, (text, ids) in named.items():
+        o = obs[cid]
+        chk.evaluations += 1
+        chk.traces += 1
+        chk.nontrivial.add(text)
+        bad = None
+        if o["outcome"] != "ok":
+            bad = "document with a declared tag named like a path tag is not accepted: %s" % rel.describe(o)
+        else:
+            cat = json.loads(o["json"])
+            t = cat["tags"].get("@zp")
+            if not t:
+                bad = "tag @zp is missing"
+            elif t.get("title") != "Declared title" or t.get("description") != "declared text":
+                bad = "tag @zp lost what its TAG directive declares: title %r, description %r" % (t.get("title"), t.get("description"))
+            else:
+                listed = sorted(x for g in t.get("interactionGroups", []) for x in g["interactions"])
+                if listed != sorted(ids):
+                    bad = "tag @zp lists %s, the interactions that carry it are %s" % (listed, sorted(ids))
+        if bad:
+            sig = {"level": "end-to-end", "what": "declared tag named like a path tag"}
+            chk.violation(bad + " | document:\n" + text, {"kind": "tags_named", "file": text, "observed": o, "signature": sig}, sig)
     for cid, (text, want) in many.items():
         o = obs[cid]
         chk.evaluations += 1
